@@ -11,6 +11,8 @@
 -/
 import ZanVerif.Node.PurgeLemmas
 import ZanVerif.Node.Ckpt
+import ZanVerif.Node.CkptRestore
+import ZanVerif.Gen.Restore
 
 namespace Z.Props.C14
 open Z.Purge
@@ -47,6 +49,42 @@ theorem C14_restore_keeps_checkpoint (same : Bytes → Bytes → Bool) (fs : FS)
 open Z.Ckpt in
 theorem C14_engine_activity_keeps_checkpoint (fs : FS) (inv : Inv fs) (ops : List Op) :
     ∀ n, view (ops.foldl step fs) (ops.foldl step fs).dirK n = view fs fs.dirK n := ops_keep fs inv ops
+
+open Z.Ckpt in
+/-- file level, the other direction: **after a restore the engine directory holds exactly the checkpoint's files** — every
+    name that is not a LOG file reads the bytes the checkpoint holds under it, a name the checkpoint does not have is
+    gone — for every previous content of the engine directory and every answer of the "same sst" heuristic
+    (`isSameSSTFile` compares name, size and the last 256 kB only): the hard-link copy replaces whatever is not the
+    checkpoint's own inode. The statement structure of `restoreFromPath` and `CopyFileForHardLink` the model follows is
+    pinned by the regenerated `Gen.restoreShape` / `Gen.hardLinkCopyReplaces` (a changed order — e.g. listing before
+    closing the engine — or another early return breaks the tie). -/
+theorem C14_restore_yields_checkpoint_files (same : Bytes → Bytes → Bool) (fs : FS) (inv : Inv fs)
+    (hnd : (fs.dirK.map (·.1)).Nodup) (_shape : Gen.restoreShape = true ∧ Gen.hardLinkCopyReplaces = true)
+    (n : Name) (hl : isLog n = false) :
+    view (restore same fs) (restore same fs).dirD n = view fs fs.dirK n :=
+  restore_yields_checkpoint same fs inv hnd n hl
+
+open Z.Ckpt in
+/-- non-vacuity: the engine directory holds a DIFFERENT file under the checkpoint's sst name, the heuristic says "same",
+    a stale WAL and a stale sst lie around: after the restore every name reads what the checkpoint holds -/
+def exFS : FS :=
+  { dirD := [("000006.sst", 10), ("000009.log", 11), ("000007.sst", 12), ("LOG", 13)],
+    dirK := [("000006.sst", 1), ("MANIFEST-000001", 2), ("CURRENT", 3)],
+    content := fun i => if i = 1 then [1, 1] else if i = 2 then [2] else if i = 3 then [3] else if i = 10 then [9, 9] else [7],
+    next := 20 }
+open Z.Ckpt in
+theorem exInv : Inv exFS := by
+  refine ⟨?_, ?_, ?_⟩
+  · intro x hx; simp [exFS] at hx; rcases hx with rfl | rfl | rfl <;> simp [exFS]
+  · intro x hx; simp [exFS] at hx; rcases hx with rfl | rfl | rfl | rfl <;> simp [exFS]
+  · intro x hx ⟨y, hy, e⟩
+    simp [exFS] at hx hy
+    rcases hx with rfl | rfl | rfl | rfl <;> rcases hy with rfl | rfl | rfl <;> simp at e
+open Z.Ckpt in
+example (n : Name) (hl : isLog n = false) :
+    view (restore (fun _ _ => true) exFS) (restore (fun _ _ => true) exFS).dirD n = view exFS exFS.dirK n :=
+  C14_restore_yields_checkpoint_files _ exFS exInv (by decide) ⟨rfl, rfl⟩ n hl
+example : Gen.restoreShape = true ∧ Gen.hardLinkCopyReplaces = true := ⟨rfl, rfl⟩
 
 /-! non-vacuity: 5 checkpoints, keep 2, latest recorded snapshot index 40 -/
 example : purge 2 40 [(1, 10), (1, 20), (2, 30), (2, 40), (3, 50)] = [(1, 20), (2, 30), (2, 40), (3, 50)] := by decide
